@@ -155,9 +155,10 @@ func loadProgram(repo string) (*Program, error) {
 }
 
 // FuncKey returns the canonical contract key of an SSA function:
-//   pkgpath.Name            for package-level functions
-//   pkgpath.(*T).Name / pkgpath.(T).Name  for methods
-//   parentkey$N             for anonymous functions
+//
+//	pkgpath.Name            for package-level functions
+//	pkgpath.(*T).Name / pkgpath.(T).Name  for methods
+//	parentkey$N             for anonymous functions
 func FuncKey(fn *ssa.Function) string {
 	if fn == nil {
 		return "<nil>"
@@ -165,6 +166,21 @@ func FuncKey(fn *ssa.Function) string {
 	if fn.Parent() != nil {
 		// anonymous: name is like Parent$1
 		nm := fn.Name()
+		if par := fn.Parent(); par.Parent() == nil && par.Name() == "init" && par.Synthetic != "" && par.Prog != nil {
+			// literal in a package-level initialiser: key by file and ordinal within that file, so that
+			// adding another file with such literals does not renumber it
+			file := filepath.Base(par.Prog.Fset.Position(fn.Pos()).Filename)
+			k := 0
+			for _, af := range par.AnonFuncs {
+				if filepath.Base(par.Prog.Fset.Position(af.Pos()).Filename) == file {
+					k++
+				}
+				if af == fn {
+					break
+				}
+			}
+			return FuncKey(par) + "$" + file + fmt.Sprintf("$%d", k)
+		}
 		if i := strings.LastIndex(nm, "$"); i >= 0 {
 			return FuncKey(fn.Parent()) + nm[i:]
 		}
